@@ -24,8 +24,8 @@ var (
 	Codes      = []string{"", "c1", "C2"}
 	Zones      = []string{"", "z1", "z2"}
 	ServiceIDs = []string{"", "10", "9", "WK", "sa", "su", "WK "} // "WK " is only ever referenced, never a calendar id (it is out of order)
-	ShapeIDs   = []string{"", "10", "9", "Sh", "sh2", "Sh "}      // "Sh " is only ever referenced, never a shapes.txt id
-	TripIDs    = []string{"", "T1", "t2", "t3", "10", "9", "T1 "}
+	ShapeIDs   = []string{"", "10", "9", "Sh", "Sh2", "Sh "}      // "Sh " is only ever referenced, never a shapes.txt id; "Sh"+"21" and "Sh2"+"1" read the same when glued
+	TripIDs    = []string{"", "T1", "t2", "T12", "10", "9", "T1 "} // "T1"+"21" and "T12"+"1" read the same when glued
 	BlockIDs   = []string{"", "b1", "B2"}
 	Bads       = []string{"", "abc", "12:xx:00", "2024-01-01", "1.5x", "--", "12a", "08:10:00:00", "1:2:3:4:5", ":::", "99999999999999999999",
 		"4294967297", "08:10:\xa000", "true", "T", "20230230", "20230431"} // 2^32+1 (wraps to 1 as an int32); a lone 0xA0 byte (not UTF-8, not a space) inside a time; booleans; dates that exist in no calendar
